@@ -174,6 +174,12 @@ def body(ch, ctx):
     if form == "kwargs":
         got = db.region(seqid=S1, start=s, end=e, completely_within=cw, strand=strand, featuretype=ft)
         exp = brute(feats, S1, s, e, cw, strand, ft)
+        # the same call with positional arguments in the documented order (region, seqid, start, end, strand, featuretype,
+        # completely_within)
+        pos = sorted(f.id for f in db.region(None, S1, s, e, strand, ft, cw))
+        got = list(got)
+        ctx.check(pos == sorted(f.id for f in got), "positional-call-differs-from-keyword-call", dict(sig, method="region"), start=s, end=e,
+                  keyword=sorted(f.id for f in got)[:8], positional=pos[:8])
     elif form == "tuple":
         got = db.region(region=lim_t, completely_within=cw, strand=strand, featuretype=ft)
         exp = brute(feats, S1, s, e, cw, strand, ft)
@@ -214,15 +220,22 @@ def body(ch, ctx):
                   expected=list(zip(alone, other))[:6])
         got = db.region(region=lim_t, completely_within=cw, strand=strand, featuretype=ft)
     elif form == "all_features":
-        got = db.all_features(limit=lim_t, completely_within=cw, strand=strand, featuretype=ft)
+        got = list(db.all_features(limit=lim_t, completely_within=cw, strand=strand, featuretype=ft))
         exp = brute(feats, S1, s, e, cw, strand, ft)
+        pos = [f.id for f in db.all_features(lim_t, strand, ft, "start", False, cw)]         # (limit, strand, featuretype, order_by, reverse, completely_within)
+        kwd = [f.id for f in db.all_features(limit=lim_t, strand=strand, featuretype=ft, order_by="start", reverse=False, completely_within=cw)]
+        ctx.check(sorted(pos) == sorted(kwd) and sorted(pos) == sorted(f.id for f in got), "positional-call-differs-from-keyword-call",
+                  dict(sig, method="all_features"), start=s, end=e, keyword=kwd[:8], positional=pos[:8])
     elif form == "all_features_str":
         got = db.all_features(limit=lim_s, completely_within=cw, strand=strand, featuretype=ft)
         exp = brute(feats, S1, s, e, cw, strand, ft)
     elif form == "features_of_type":
         t = ft or ("gene", "exon")
-        got = db.features_of_type(t, limit=lim_t, completely_within=cw, strand=strand)
+        got = list(db.features_of_type(t, limit=lim_t, completely_within=cw, strand=strand))
         exp = brute(feats, S1, s, e, cw, strand, t)
+        pos = [f.id for f in db.features_of_type(t, lim_t, strand, "start", False, cw)]      # (featuretype, limit, strand, order_by, reverse, completely_within)
+        ctx.check(sorted(pos) == sorted(f.id for f in got), "positional-call-differs-from-keyword-call", dict(sig, method="features_of_type"),
+                  start=s, end=e, keyword=sorted(f.id for f in got)[:8], positional=sorted(pos)[:8])
     elif form == "children":
         got = db.children("R", limit=lim_t if strand is None else lim_s, completely_within=cw, featuretype=ft)
         exp = brute(feats, S1, s, e, cw, None, ft)
